@@ -7,6 +7,6 @@ cp -r /repo/elftools "$D/"
 sed -i "$E" "$D/elftools/$F"
 if diff -q /repo/elftools/$F "$D/elftools/$F" >/dev/null; then echo "sed did not change anything"; rm -rf "$D"; exit 9; fi
 diff /repo/elftools/$F "$D/elftools/$F" | head -6
-VERIF_REPO="$D" VERIF_EVIDENCE_DIR="$D/ev" "$(dirname "$0")/../check" "$P" "$@" 2>&1 | grep -v "^KNOWN" | tail -4
+VERIF_REPO="$D" VERIF_OUT="$D/out" "$(dirname "$0")/../check" "$P" "$@" 2>&1 | grep -v "^KNOWN" | tail -4
 echo "mutant-exit=${PIPESTATUS[0]}"
 rm -rf "$D"
